@@ -230,6 +230,12 @@ func (r *Run) Do(st Step) (div *Divergence, stop bool) {
 			// the tree comparison below checks that it had no visible effect
 			if isCopy {
 				r.Facts.FailedCopies = append(r.Facts.FailedCopies, cp(p2))
+				if src := r.Model.Get(p1); src != nil && src.Dir {
+					// a directory copy that fails half-way (destination exists, type conflict below it)
+					// is not atomic on any backend; neither statement says what must remain
+					r.Ambiguous = fmt.Sprintf("step %d %s: failed directory copy, remaining state undefined", i, op)
+					return nil, true
+				}
 			}
 		case amb:
 			r.Ambiguous = fmt.Sprintf("step %d %s: no defined expectation", i, op)
@@ -326,7 +332,7 @@ func (r *Run) doCommit(i int) (*Divergence, bool) {
 	obs, anom := mfs.ObserveLimit(r.Remote, r.Model.Root.Depth()+3, 100000)
 	r.CommitsChecked++
 	if len(anom) > 0 {
-		return &Divergence{Prop: "C06", Class: "remote-anomaly", Detail: strings.Join(anom, "; "), Step: i}, true
+		return &Divergence{Prop: "C06", Class: "remote-anomaly", Detail: fmt.Sprintf("after the successful Commit at step %d the remote tree is inconsistent: %s", i, strings.Join(anom, "; ")), Step: i, Path: anomPath(anom[0])}, true
 	}
 	if d, at := diffAt(r.Model.Root, obs); d != "" {
 		return &Divergence{Prop: "C06", Class: "commit-mismatch", Detail: fmt.Sprintf("after the successful Commit at step %d the remote differs from the tree obtained by applying the successful operations directly: %s", i, d), Step: i, Path: at}, true
@@ -418,7 +424,7 @@ func (r *Run) Explain(d *Divergence) string {
 			return "C07-F3"
 		}
 	case "C06":
-		if d.Class == "commit-mismatch" || d.Class == "commit-error" {
+		if d.Class == "commit-mismatch" || d.Class == "commit-error" || d.Class == "remote-anomaly" {
 			if d.Path != nil && anyRelated(f.RemovedAny, d.Path) {
 				return "C06-F1"
 			}
